@@ -54,8 +54,8 @@ CLAIMED.update({
 })
 CLAIMED.update({
  "C06": ("fault_enumeration",
-         "single-fault injection on a typed program IR (property testing over a choice tape): 22 guaranteed-ill-typed fault kinds at tape-chosen sites of generated well-typed programs",
-         "Each case is a well-typed generated program plus one edit that is ill-typed by construction (the IR knows every expression's type; all generic calls carry explicit type arguments, or the type parameter is pinned by another argument). The unmutated program must have no diagnostics; the mutant must get at least one diagnostic located in the offending module and compile_sources must return Err. Evidence tabulates fault kind x outcome.",
+         "single-fault injection on a typed program IR (property testing over a choice tape): 24 guaranteed-ill-typed fault kinds at tape-chosen sites of generated well-typed programs",
+         "Each case is a well-typed generated program plus one edit that is ill-typed by construction (the IR knows every expression's type; all generic calls carry explicit type arguments, or the type parameter is pinned by another argument). The unmutated program must have no diagnostics; the mutant must get at least one diagnostic located in the offending module and compile_sources must return Err. Fault kinds include a class claiming a second, unsatisfiable instantiation of a generic interface and a value of a same-named class declared in another module. Evidence tabulates fault kind x outcome.",
          "The guarantee of each fault kind is argued in generators/faults.rs; sites where the guarantee does not hold (inferred type arguments, literal merged into INT_MIN) are excluded or discarded and counted.",
          "DESIGN.md §4 C06"),
 })
@@ -67,7 +67,7 @@ CLAIMED.update({
          "DESIGN.md §4 C12"),
  "C13": ("exploration",
          "metamorphic property testing: meaning-preserving rewrites applied on the typed IR of generated accepted and rejected programs; checker verdict and compiled behaviour compared before/after",
-         "Eleven rewrites (alpha-renaming to fresh names and its reverse (scope-level naming so that sibling scopes reuse names), class and member permutation, annotating inferred lambda parameters, parenthesis / block wrapping, dropping let / lambda annotations and explicit type arguments, splitting a class into a new module) are applied by construction on the generator's IR; the verdict must not flip (for annotation-dropping rewrites a rejection of the less annotated form is only counted), and both forms' emitted WebAssembly must behave the same.",
+         "Eleven rewrites (alpha-renaming to fresh names and its reverse (scope-level naming so that sibling scopes reuse names), class and member permutation, annotating inferred lambda parameters, parenthesis / block wrapping, dropping let / lambda annotations and explicit type arguments, splitting a class into a new module) are applied by construction on the generator's IR; the verdict must not flip (for annotation-dropping rewrites a rejection of the less annotated form is only counted), and both forms' emitted WebAssembly must behave the same. One case in 12 comes from a dedicated host family around generic classes / functions whose type-parameter bounds mention other parameters declared later, earlier or both ways, comparing the inferred spelling with let annotations, explicit type arguments and lambda annotations.",
          "Rewrites are meaning-preserving by construction on the IR (unique names, imports derived). Pairs the compiler cannot compile/load are C03's.",
          "DESIGN.md §4 C13"),
 })
@@ -86,23 +86,23 @@ CLAIMED.update({
          "DESIGN.md §4 C18"),
  "C10": ("exploration",
          "stateful differential property testing: generated edit histories applied to one ServerState, compared after every operation with a freshly started ServerState on the current contents",
-         "Histories of update / create / rename-module / remove operations over a pool of six module names with generated contents (imports forming cycles, self-imports, missing modules, transitive signature dependencies, private classes, type errors, empty and unparsable files). After every operation the rendered diagnostics of every module name ever mentioned and the set of modules must equal those of a fresh server. The whole history shrinks as one value.",
+         "Histories of update / create / rename-module / remove operations over a pool of six module names with generated contents (imports forming cycles, self-imports, missing modules, transitive signature dependencies, private classes, type errors, empty and unparsable files). Histories also contain signature-preserving edits (lines inserted in front of / inside a module, a re-laid-out body). After every operation the rendered diagnostics (range, short message, full rendering with code frames, related locations) of every module name ever mentioned and the set of modules must equal those of a fresh server. The whole history shrinks as one value.",
          "Batches name a module at most once (as the LSP front end sends them). Diagnostics are compared as sorted lists of rendered strings.",
          "DESIGN.md §4 C10"),
  "C11": ("exploration",
          "stateful robustness property testing / fuzzing of the services API: generated histories of edits and requests under catch_unwind",
-         "Edit histories (module-pool workspaces and G1 generated programs with their std modules, edited by single-fault mutants) interleaved with all nine request kinds at identifier positions and at positions outside the text, on live, renamed, removed and never-existing modules; every edit runs a GC slice. Any panic is a violation keyed by its source location; evidence reports per request kind how many requests were answered.",
+         "Edit histories (module-pool workspaces, G1 generated programs with their std modules edited by single-fault mutants, grammar-generated modules with long identifiers, and long sessions of 30-150 edits that each intern hundreds of fresh long strings so that one incremental GC sweep spans several edits) interleaved with all nine request kinds at identifier positions and at positions outside the text, on live, renamed, removed and never-existing modules; every edit runs a GC slice. Any panic is a violation keyed by its source location; evidence reports per request kind how many requests were answered.",
          "A use of a reclaimed string is visible only when it panics (the heap checks dereferences of deallocated strings); C17 decides the heap contract itself.",
          "DESIGN.md §4 C11"),
 })
 CLAIMED.update({
  "C15": ("exploration",
          "property testing with generator-side ground truth: unique-name programs and their scope-level-renamed variants; go-to-definition / find-references / rename compared with the binder each occurrence resolves to; rename additionally checked by round trip and by the reference interpreter",
-         "Hosts are G1 accepted programs whose local names are unique per member, so the binder of every occurrence is known; the queried document is that program or the same program with binders renamed after their scope level (sibling scopes reuse names). At tape-chosen occurrences definition must land on the right binding, references must be exactly that variable's occurrences, rename must change exactly them, keep the document error-free and behaviourally identical under the reference interpreter, and renaming back must restore the formatted original.",
+         "Hosts are dedicated match members with nested or-patterns (variant alternatives binding the same names in different tuple components; struct payloads destructured in shorthand form) and G1 accepted programs whose local names are unique per member, so the binder of every occurrence is known; the queried document is that program or the same program with binders renamed after their scope level (sibling scopes reuse names). At tape-chosen occurrences definition must land on the right binding, references must be exactly that variable's occurrences, rename must change exactly them, keep the document error-free and behaviourally identical under the reference interpreter, and renaming back must restore the formatted original.",
          "Parameters of interface member declarations are not queried (no scope). For or-pattern variables any alternative's binder counts as the binding.",
          "DESIGN.md §4 C15"),
  "C16": ("exploration",
-         "property testing of proposed text edits: generated workspaces and documents (imports in any order / layout with comments), every auto-import quick fix and completion additional-edit set applied to the text and re-checked",
+         "property testing of proposed text edits: generated workspaces and documents (imports in any order / layout with comments, also on the import's own line and continuing below it), every auto-import quick fix and completion additional-edit set applied to the text and re-checked",
          "For every unresolved-class diagnostic of a generated document the proposed edits are applied by the harness's own edit applier (range and overlap checks), the result is parsed, its imports / classes / comments compared with the original, and sent back to the server to confirm that the class resolves and no new diagnostic appears.",
          "The module and class named by a quick fix are read from its title. Positions use the parser's (0-based line, byte column) convention.",
          "DESIGN.md §4 C16"),
